@@ -11,4 +11,4 @@ EXPLANATION = "Proved: reader choice by suffix (auto_rows) and by data format (_
 LEVEL_TEXT = "Deductive proof of cutplace's share (dispatch, non-interference by a format-symbolic proof, attribute existence); bounded 3 x 3 storage sweep; K-5 recorded."
 LEVEL_NOTE = "Trusts the readers' dependency axioms (audited elsewhere), the pyvc encoding, z3/cvc5."
 TECHNIQUE = "contract-based deductive verification (format-symbolic proof = self-composition for free) + structural scan + bounded storage sweep"
-UNITS = [OD.unit_ods_rows(), XL.unit_excel_rows(), RDL.unit_delimited_rows(), STO.unit_attribute_existence(), STO.unit_auto_rows(), VIO.unit_raw_rows(), F.unit_validated(), IF.unit_cid_read(), D.unit_dataformat_init(), STO.unit_storage_sweep()]
+UNITS = [OD.unit_ods_rows().also("C17"), XL.unit_excel_rows().also("C17"), RDL.unit_delimited_rows().also("C17"), STO.unit_attribute_existence(), STO.unit_auto_rows(), VIO.unit_raw_rows(), F.unit_validated(), IF.unit_cid_read(), D.unit_dataformat_init(), STO.unit_storage_sweep()]
